@@ -21,8 +21,9 @@ ASSUME = ["`lorem` is not used (its randomness is the only documented impurity)"
           "instance counting sees emmet-defined class instances and module-level/default-argument containers, not interned strings or C-level state"]
 
 ABBRS_M = ['doc', 'ul>li*2', 'ul>li*', 'p{$#}*', 'a', 'a[href=x]{t}', 'div.b_m>.-e', 'ul.nav>.-item*2>._active', 'div.b>div.-e>div.-e', 'bad', 'bad2>p', 'x1+bad', 'a[', 'p{', '(a',
-           'foo', 'foo.a.b', 'p{${v}}', 'vare>p', 'tm', '!', 'table>.r>.c', 'ul>li.i$*3', 'a:link', 'select>.o', 'ul>li*5', 'x1*4>x2*2', '', '()', '()*3', '(())']
-ABBRS_C = ['zq', 'zr', '@kf', 'm10', 'p10-20', 'm', 'p', 'bd', 'c#fc0', 'fz1.5', 'lh2', 'z10', 'm10+p', 'bad', 'xx', 'm-a', 'pos:a', 'trf:rx', 'w100p', 'mah', 'p!', '(', 'm10-', 'trf-s(2, 3)', 'trf-s(1)', 'trf-s', 'trf:r(45deg)', 'trf:r']
+           'foo', 'foo.a.b', 'p{${v}}', 'vare>p', 'tm', '!', 'table>.r>.c', 'ul>li.i$*3', 'a:link', 'select>.o', 'ul>li*5', 'x1*4>x2*2', '', '()', '()*3', '(())',
+           'x1>.c', 'em>.a', 'sec>#i>.k']
+ABBRS_C = ['zq', 'zr', '@kf', 'bg:al', 'bg-be', 'bgx', 'm10', 'p10-20', 'm', 'p', 'bd', 'c#fc0', 'fz1.5', 'lh2', 'z10', 'm10+p', 'bad', 'xx', 'm-a', 'pos:a', 'trf:rx', 'w100p', 'mah', 'p!', '(', 'm10-', 'trf-s(2, 3)', 'trf-s(1)', 'trf-s', 'trf:r(45deg)', 'trf:r']
 
 CFG_M = [
     {},
@@ -41,6 +42,8 @@ CFG_M = [
     {'options': {'output.format': False, 'output.tagCase': 'upper'}},
     {'variables': {'lang': 'de'}},
     {'variables': {'lang': 'fr', 'charset': 'koi8-r'}, 'options': {'output.format': False}},
+    {'options': {'inlineElements': ['x1', 'em', 'sec']}},
+    {'options': {'inlineElements': []}},
 ]
 CFG_C = [
     {'type': 'stylesheet'},
@@ -53,6 +56,7 @@ CFG_C = [
     {'type': 'stylesheet', 'syntax': 'sass', 'options': {'stylesheet.unitAliases': {'p': 'pc'}}},
     {'type': 'stylesheet', 'snippets': {'m': 'max-width:3', 'p': 'pad-x:7'}, 'options': {'stylesheet.intUnit': 'pt'}},
     {'type': 'stylesheet', 'snippets': {'m': 'max-width:3', 'p': 'pad-x:7'}, 'options': {'stylesheet.floatUnit': 'ex'}},
+    {'type': 'stylesheet', 'snippets': {'bgx': 'background-extra:alpha|beta'}},
 ]
 
 _TAB_A = {'zq': 'zoom-quality:high|low', 'zr': '@zr-rule ${1} {}'}
@@ -279,7 +283,7 @@ def pair_cases():
             for via in ('dict', 'Config'):
                 yield {'cfgs': cfgs, 'ncaches': 0, 'steps': [{'abbr': a1, 'cfg': 0, 'via': via, 'cache': None}, {'abbr': a2, 'cfg': j, 'via': via, 'cache': None},
                                                               {'abbr': a1, 'cfg': 0, 'via': 'dict', 'cache': None}]}
-    fam_c = [(a, c) for a in ('m10', 'm', 'p', 'xx', 'fz1.5') for c in range(len(CFG_C))]
+    fam_c = [(a, c) for a in ('m10', 'm', 'p', 'xx', 'fz1.5') for c in range(10)]
     for (a1, c1) in fam_c:
         for (a2, c2) in fam_c:
             if c1 == c2:
@@ -325,6 +329,25 @@ def pair_cases():
                 continue
             yield {'cfgs': [CFG_S[c1], CFG_S[c2]], 'ncaches': 1, 'steps': [{'abbr': a1, 'cfg': 0, 'via': 'dict', 'cache': 0}, {'abbr': a2, 'cfg': 1, 'via': 'dict', 'cache': 0},
                                                                          {'abbr': a1, 'cfg': 0, 'via': 'dict', 'cache': 0}]}
+
+
+    # no cache at all: a keyword of a user snippet that nests under a shipped shorthand (`bgx` → background) must not be resolvable by a later
+    # call that does not carry that table; an implicit tag name under a parent whose inline-ness differs between the calls' `inlineElements`
+    # (added after seeded changes C08-11/-12: memoised snippet objects mutated by nest(), ELEMENT_MAP written at run time)
+    fam_k = [(a, c) for a in ('bg:al', 'bg-be', 'bgx', 'bg') for c in (0, len(CFG_C) - 1)]
+    for (a1, c1) in fam_k:
+        for (a2, c2) in fam_k:
+            cfgs = [CFG_C[c1]] + ([CFG_C[c2]] if c2 != c1 else [])
+            j = 0 if c2 == c1 else 1
+            yield {'cfgs': cfgs, 'ncaches': 0, 'steps': [{'abbr': a1, 'cfg': 0, 'via': 'dict', 'cache': None}, {'abbr': a2, 'cfg': j, 'via': 'dict', 'cache': None},
+                                                          {'abbr': a1, 'cfg': 0, 'via': 'dict', 'cache': None}]}
+    fam_i = [(a, c) for a in ('x1>.c', 'em>.a', 'sec>#i>.k') for c in (0, len(CFG_M) - 2, len(CFG_M) - 1)]
+    for (a1, c1) in fam_i:
+        for (a2, c2) in fam_i:
+            cfgs = [CFG_M[c1]] + ([CFG_M[c2]] if c2 != c1 else [])
+            j = 0 if c2 == c1 else 1
+            yield {'cfgs': cfgs, 'ncaches': 0, 'steps': [{'abbr': a1, 'cfg': 0, 'via': 'dict', 'cache': None}, {'abbr': a2, 'cfg': j, 'via': 'dict', 'cache': None},
+                                                          {'abbr': a1, 'cfg': 0, 'via': 'dict', 'cache': None}]}
 
 
 def shard_pairs(ctx, shard, nshards):
